@@ -81,6 +81,33 @@ class Site:
         return (self.owner, self.sp)
 
 
+def draw_vector(ev, dist_word, within=None):
+    """a vector of independent draws of one distribution from one generator, whichever way it is drawn:
+    element-wise in a counted loop (`for _ in 0..n { v.push(rng.random()) }`, `(0..n).map(|_| ..).collect()`, `repeat_with(..).take(n)`)
+    or as a block (`rng.sample_iter(D).take(n).collect()`).  Both consume n consecutive variates of the generator.
+    Returns {'site', 'seq' (the collected vector term), 'n', 'form', 'wrappers'} or None when there is not exactly one such vector.
+    `within`: a term in which the block form's comprehension is looked up (its length is wherever the stream is truncated)."""
+    from .speclib import collected, mk_comp, S as _S
+    sites = [s for s in rng_sites(ev) if s.kind == 'draw' and dist_word in s.dist()]
+    per_elem = [s for s in sites if s.draw_kind in ('rng_random', 'rng_sample', 'dist_sample') and len(s.loops) == 1]
+    block = [s for s in sites if s.draw_kind == 'sample_iter' and not s.loops]
+    if len(per_elem) == 1 and not block:
+        s = per_elem[0]
+        ul = loop_by_uid(ev, s.loops[0])
+        seqs = [seq for seq, el in collected(ul) if el is s.res] if ul is not None else []
+        if len(seqs) == 1 and not ul.exits:
+            return {'site': s, 'seq': seqs[0], 'n': ul.n, 'form': 'loop', 'loop': ul}
+        return None
+    if len(block) == 1 and not per_elem and within is not None:
+        s = block[0]
+        comps = [c for c in T.atoms(within, lambda x: T.is_app(x, 'comp')) if any(y is s.res for y in T.subterms(c))]
+        k = _S('k#dv')
+        comps = [c for c in comps if c is mk_comp(c[2][0], k, T.app('nth', s.res, k))]
+        if len(comps) == 1:
+            return {'site': s, 'seq': comps[0], 'n': comps[0][2][0], 'form': 'block', 'loop': None}
+    return None
+
+
 def rng_sites(ev):
     return [Site(ev, e) for e in ev.vf.events if e.op in RNG_EVENT_KINDS]
 
@@ -280,6 +307,7 @@ def static_refs(body, facts):
 def per_chain_sets(ev, chains_field='chains'):
     """From a seeding / construction method that loops over self.chains: the fields it sets on every chain.
     Returns (loop, index var, {field: term}) or None."""
+    cands = []
     for ls in ev.vf.loops:
         for k, nxt in ls.next.items():
             if keyrepr(k) != 'self.' + chains_field or not isinstance(nxt, T.Tm):
@@ -292,7 +320,26 @@ def per_chain_sets(ev, chains_field='chains'):
                     base = val[2][0]
                     for s_ in val[2][1:]:
                         fields[s_[1][4:]] = s_[2][0]
-                    return ls, idx, base, fields
+                    cands.append((ls, idx, base, fields, lh))
+    if cands:
+        ls1, idx1, base1, fields1, lh1 = cands[0]
+        merged = dict(fields1)
+        for ls2, idx2, base2, fields2, lh2 in cands[1:]:
+            # a second pass over the same chains that sets other fields (`for c in chains { c.rng = .. }  for c in chains { c.proposal = .. }`)
+            # is the one-pass form when it runs over the same range with the same index, directly after the first, and reads none of
+            # the fields the earlier pass wrote
+            same_range = ls2.n is ls1.n and not ls1.exits and not ls2.exits and not ls1.ctx and not ls2.ctx and (idx2 is ls2.var) == (idx1 is ls1.var)
+            chained = [ls2.init[k] for k in ls2.lh if ls2.lh[k] is lh2] == [ls1.lx[k] for k in ls1.lh if ls1.lh[k] is lh1]
+            m = {ls2.var: ls1.var, lh2: lh1}
+            if idx2 is not ls2.var:
+                m[idx2] = idx1
+            vals = {f: T.subst(v, m) for f, v in fields2.items()}
+            from .speclib import fld
+            reads_written = any(fld(base1, f) in set(T.subterms(v)) for v in vals.values() for f in merged)
+            if not (same_range and chained) or reads_written or set(vals) & set(merged):
+                break
+            merged.update(vals)
+        return ls1, idx1, base1, merged
     # functional spelling: the method returns the sampler rebuilt with `chains` collected from a map over its own chains, each
     # element a rebuilt chain -- `Self { chains: self.chains.into_iter().enumerate().map(|(i, c)| c.set_seed(f(i))).collect() }`
     from .speclib import fld, strip_eff, index_term, mk_comp
